@@ -206,7 +206,29 @@ def replay(prog, order, timeout=30.0):
     return {"hang": False, "diverged": rec.baton.diverged, "outcome": w.outcome(res.get(1), res.get(2)), "res": res}
 
 
-def decide_pair(prog, max_replays=10, variants=False, check_deadlock=True, cycles=True):
+def windows(order, t1):
+    """Names of the functions thread 1 was in -- below its innermost _load frame, while it
+    held the suspend counter itself -- at the points where the witness switches away
+    from it."""
+    names = set()
+    try:
+        if len([x for x in order if x == 1]) != len(t1):
+            return ["?"]
+        k1 = -1
+        for pos, t in enumerate(order):
+            if t == 1:
+                k1 += 1
+                nxt = order[pos + 1] if pos + 1 < len(order) else None
+                if nxt == 2 and k1 + 1 < len(t1):
+                    raised, callee = t1[k1].get("win", (False, None))
+                    if raised:
+                        names.add(callee or "outside-_load")
+    except Exception:
+        return ["?"]
+    return sorted(names)
+
+
+def decide_pair(prog, max_replays=10, variants=False, check_deadlock=True, cycles=True, is_known=None):
     """Full decision for one two-operation program.  Returns a dict with verdict
     ('unsat' = no conflict-cyclic ordering of the recorded events, 'violated',
     'candidates-serial' = every witness replayed to a serial outcome) and statistics."""
@@ -215,6 +237,7 @@ def decide_pair(prog, max_replays=10, variants=False, check_deadlock=True, cycle
     serial = serial_outcomes(prog)
     combos = [(False, False)] + ([(False, True), (True, False)] if variants else [])
     worst = "unsat"
+    known_violation = None
     for a1, a2 in combos:
         t1 = trace(prog, 1, after_other=a1)
         t2 = trace(prog, 2, after_other=a2)
@@ -269,13 +292,23 @@ def decide_pair(prog, max_replays=10, variants=False, check_deadlock=True, cycle
                 out["violation"] = {"kind": "hang", "order": order, "classes": [list(ka), list(kb)]}
                 break
             if rep["outcome"] not in serial:
+                viol = {"kind": "non-serial-outcome", "order": order, "classes": [list(ka), list(kb)], "outcome": json.loads(rep["outcome"]), "serial_outcomes": [json.loads(s) for s in serial],
+                        "t1_window": windows(order, t1)}
+                if is_known is not None and is_known(viol):
+                    # a recorded finding: remember it, but keep looking for a violation of another kind
+                    if known_violation is None:
+                        known_violation = viol
+                    continue
                 out["verdict"] = "violated"
-                out["violation"] = {"kind": "non-serial-outcome", "order": order, "classes": [list(ka), list(kb)], "outcome": json.loads(rep["outcome"]), "serial_outcomes": [json.loads(s) for s in serial]}
+                out["violation"] = viol
                 break
         out["queries"] += pb.queries
         out["solver_s"] += pb.solver_s
         if out["verdict"] == "violated":
             break
+    if out["verdict"] is None and known_violation is not None:
+        out["verdict"] = "violated"
+        out["violation"] = known_violation
     if out["verdict"] is None:
         out["verdict"] = worst
     out["solver_s"] = round(out["solver_s"], 3)
